@@ -50,6 +50,18 @@ func dumpFacts(p *Program, fs *FuncSrc) {
 	for _, c := range calls {
 		fmt.Printf("%s  %s\n    %s\n", p.PosStr(c.Pos()), types.ExprString(c.Fun), ff.at[c])
 	}
+	if os.Getenv("GALINT_DUMP_STMTS") != "" {
+		var stmts []ast.Node
+		for n := range ff.at {
+			if _, ok := n.(ast.Stmt); ok {
+				stmts = append(stmts, n)
+			}
+		}
+		sort.Slice(stmts, func(i, j int) bool { return stmts[i].Pos() < stmts[j].Pos() })
+		for _, n := range stmts {
+			fmt.Printf("STMT %s  %T\n    %s\n", p.PosStr(n.Pos()), n, ff.at[n])
+		}
+	}
 }
 
 func cmdCFG(args []string) int {
